@@ -413,7 +413,8 @@ def parseRLambda (σ : SpanTab) : Nat → List Tok → PR RExpr
     | _ => none
 termination_by structural f => f
 
-/-- `ParameterList<UntypedParameter, …>?`; an `ArgWithDefault` keeps the range of the bare parameter -/
+/-- `ParameterList<UntypedParameter, …>?`; an `ArgWithDefault` runs from its name to `default.end()` — the end of the
+    default's NODE (`i.range = optional_range(i.def.range.start(), e.end())` in `ParameterDef`), the `Arg` is the name -/
 def parseRParams (σ : SpanTab) : Nat → List Tok → RParams → Nat → PR RParams
   | 0, _, _, _ => none
   | _, .op .colon :: r, ps, _ => some (ps, .op .colon :: r)
@@ -424,7 +425,7 @@ def parseRParams (σ : SpanTab) : Nat → List Tok → RParams → Nat → PR RP
         if phase ≤ 2 then
           (match parseRTest σ f r with
            | some (d, r') =>
-             let a := RParam.mk (σ ts.length) (σ ts.length) n (some d)
+             let a := RParam.mk ((σ ts.length).1, d.range.2) (σ ts.length) n (some d)
              if phase = 2 then some ({ ps with kwonly := ps.kwonly ++ [a] }, phase, r')
              else some ({ ps with args := ps.args ++ [a] }, phase, r')
            | none => none)
